@@ -4,8 +4,9 @@
    of them; MC_GoLawsBug.cfg is run once per named deviation and TLC must report a violated law each time). *)
 EXTENDS GoSem
 
-VARIABLES a, b
-Rng == -7..7
+CONSTANT RngN
+VARIABLES a, b, on
+Rng == (-RngN)..RngN
 
 I == "int"
 va == Var("a")  vb == Var("b")
@@ -97,8 +98,9 @@ LawSlice == Run1(<<SlF>>, <<>>, "F", <<a>>) = (IF a < 0 \/ a > 2 THEN <<"panic">
 
 Laws == [divmod |-> LawDivMod, short |-> LawShort, struct |-> LawStruct, range |-> LawRange, continue |-> LawContinue, opasg |-> LawOpAsg,
          fall |-> LawFall, defer |-> LawDefer, recover |-> LawRecover, shadow |-> LawShadow, map |-> LawMap, slice |-> LawSlice]
-AllLaws == \A n \in DOMAIN Laws : Laws[n] \/ ~PrintT(<<"@@LAW@@", n, a, b>>)
+AllLaws == on => \A n \in DOMAIN Laws : Laws[n] \/ ~PrintT(<<"@@LAW@@", n, a, b>>)
 
-Init == a \in Rng /\ b \in Rng
-Next == UNCHANGED <<a, b>>
+\* one initial state per value of a (the laws are evaluated in the successors, by all of TLC's workers)
+Init == a \in Rng /\ b = 0 /\ on = FALSE
+Next == on = FALSE /\ b' \in Rng /\ on' = TRUE /\ UNCHANGED a
 =============================================================================
